@@ -270,6 +270,9 @@ def gen_params():
     n = re.search(r"if num_pages < (\d+) \{\s*panic!\(\"Must have a minimum", db)
     if not m or not n:
         raise GenError("OpenOptions minimum checks not found")
+    al = re.search(r"if pagesize % (\d+) != 0 \{\s*panic!\(\"Pagesize must be a multiple", db)
+    if not al:
+        raise GenError("OpenOptions::pagesize no longer refuses misaligned page sizes")
     txt = ["/- GENERATED by /verif/tools/gen_all.py from /repo/src (node.rs, db.rs). Do not edit. -/",
            "import Jamm.Model.Params", "", "namespace Jamm.Gen", "",
            "def params : Jamm.Params where",
@@ -281,6 +284,7 @@ def gen_params():
            "  defaultNumPages := %d" % default_pages,
            "  minPagesize := %d" % int(m.group(1)),
            "  minNumPages := %d" % int(n.group(1)),
+           "  pagesizeAlign := %d" % int(al.group(1)),
            "", "end Jamm.Gen", ""]
     write_if_changed("Params.lean", "\n".join(txt))
 
